@@ -17,3 +17,7 @@ def run(ctx):
     nr = exact.rescale_primitives(rep, F, scale_only=False)
     rep.floor('rescale primitives (extension exact)', nr, 4)
     rep.trust('num-bigint: BigInt::sign / magnitude / from_biguint are the exact sign-magnitude decomposition')
+    if ctx.tier == 'thorough':
+        from rules import witness
+        nw = witness.run(rep, r'^W[3456]')
+        rep.floor('type-level witnesses', nw, 4)
